@@ -73,6 +73,9 @@ let judges : (string * (sx -> verdict)) list = [
   "C11", judge_C11;
   "C12", judge_C12;
   "C14", judge_C14;
+  "C20o", judge_C20o;
+  "C20m", judge_C20m;
+  "C20e", judge_C20e;
   "C15", judge_C15;
 ]
 
